@@ -19,7 +19,7 @@ const (
 
 // well-formed documents of a kind the place they are named in does not expect (an activity without object, a Tombstone,
 // a collection, a Link, an actor): reachable in every C11 world under /hostile/kind/<Type>
-var oddKinds = []string{"Travel", "Arrive", "Question", "IntransitiveActivity", "Tombstone", "OrderedCollection", "Link", "Person", "Relationship", "Undo", "Accept"}
+var oddKinds = []string{"Travel", "Arrive", "Question", "IntransitiveActivity", "Tombstone", "OrderedCollection", "Link", "Person", "Relationship", "Undo", "Accept", "PathlessInbox", "MailtoInbox"}
 
 func iriKind(t string) string { return "https://" + hostR + "/hostile/kind/" + t }
 
@@ -28,6 +28,11 @@ func oddKindDocs() []DocSpec {
 	for _, t := range oddKinds {
 		d := J{"@context": asCtx, "type": t, "id": iriKind(t)}
 		switch t {
+		case "PathlessInbox":
+			// an actor whose inbox IRI has no path at all / is not hierarchical: legal IRIs both
+			d["type"], d["inbox"] = "Person", "https://inbox-"+hostR
+		case "MailtoInbox":
+			d["type"], d["inbox"] = "Service", "mailto:inbox@"+hostR
 		case "Travel", "Arrive", "Question", "IntransitiveActivity":
 			d["actor"] = "https://" + hostR + "/u/dave"
 		case "Link":
@@ -76,7 +81,7 @@ func init() {
 	for _, t := range oddKinds {
 		mutOps = append(mutOps, "iri-kind-"+t)
 	}
-	mutOps = append(mutOps, "own-inbox", "own-outbox", "own-actor", "own-followers", "iri-pagedcycle")
+	mutOps = append(mutOps, "own-inbox", "own-outbox", "own-actor", "own-followers", "iri-pagedcycle", "iri-public")
 }
 
 // a remote collection whose pages point at each other for ever (first -> page 1 -> next page 2 -> next page 1 ...)
@@ -127,6 +132,8 @@ func setPath(root interface{}, p jpath, op string) interface{} {
 		repl = map[string]string{"own-inbox": me.Inbox, "own-outbox": me.Outbox, "own-actor": me.ID, "own-followers": me.Followers}[op]
 	case "iri-pagedcycle":
 		repl = iriPaged
+	case "iri-public":
+		repl = publicIRI
 	default:
 		if strings.HasPrefix(op, "iri-kind-") {
 			repl = iriKind(strings.TrimPrefix(op, "iri-kind-"))
